@@ -1353,3 +1353,83 @@ pub fn by_value_edges(p: &Project) -> BTreeMap<usize, BTreeSet<usize>> {
     }
     out
 }
+
+/// Adds a copy of module `host` under `path`: every short name, vftable block and function of
+/// the original exists twice afterwards, each copy referring to its own module's items (and to
+/// the same items of other modules as the original).
+pub fn add_twin_module(p: &mut Project, host: usize, path: Vec<String>) -> usize {
+    let k = p.modules.len();
+    let mut twin = p.modules[host].clone();
+    twin.path = path;
+    twin.deleted = false;
+    let originals: Vec<usize> = (0..p.items.len())
+        .filter(|i| p.items[*i].module == host)
+        .collect();
+    let base = p.items.len();
+    let remap = |i: usize| -> usize {
+        match originals.iter().position(|o| *o == i) {
+            Some(pos) => base + pos,
+            None => i,
+        }
+    };
+    fn retarget(ty: &mut Ty, remap: &dyn Fn(usize) -> usize) {
+        match ty {
+            Ty::Item(i) => *i = remap(*i),
+            Ty::ConstPtr(t) | Ty::MutPtr(t) | Ty::Array(t, _) => retarget(t, remap),
+            _ => {}
+        }
+    }
+    let retarget_fn = |f: &mut Func, remap: &dyn Fn(usize) -> usize| {
+        for (_, t) in f.args.iter_mut() {
+            retarget(t, remap);
+        }
+        if let Some(t) = &mut f.ret {
+            retarget(t, remap);
+        }
+    };
+    let mut clones = vec![];
+    for &o in &originals {
+        let mut it = p.items[o].clone();
+        it.module = k;
+        match &mut it.kind {
+            ItemKind::Type {
+                fields,
+                vftable,
+                impl_funcs,
+                ..
+            } => {
+                for f in fields.iter_mut() {
+                    retarget(&mut f.ty, &remap);
+                }
+                if let Some(v) = vftable {
+                    for f in v.funcs.iter_mut() {
+                        retarget_fn(f, &remap);
+                    }
+                }
+                for f in impl_funcs.iter_mut() {
+                    retarget_fn(f, &remap);
+                }
+            }
+            ItemKind::Enum { base, .. } => retarget(base, &remap),
+            ItemKind::Extern { .. } => {}
+        }
+        if let Some(vs) = &mut it.vslots {
+            for f in vs.iter_mut() {
+                retarget_fn(f, &remap);
+            }
+        }
+        clones.push(it);
+    }
+    p.items.extend(clones);
+    for d in twin.order.iter_mut() {
+        match d {
+            Decl::Item(i) | Decl::Impl(i) => *i = remap(*i),
+            _ => {}
+        }
+    }
+    for ev in twin.extern_values.iter_mut() {
+        retarget(&mut ev.ty, &remap);
+    }
+    p.modules.push(twin);
+    k
+}
